@@ -92,9 +92,16 @@ Theorem C27_mode_safe_arg : forall i t a, is_stuck (body_arg [i; t; a]) = false.
 Proof. exact arg_safe. Qed.
 Print Assumptions C27_mode_safe_arg.
 
-Theorem C27_mode_safe_univ : forall t parts, is_stuck (body_split_call [t; parts]) = false.
+(* =../2 -- PARTIAL: `term.with_args()` (no arguments) raises TypeError when `term` is an instance of Not/And/Or/Clause
+   (found by the stream: `\+a =.. X`); the Python class is not observable in the model, so for the functors those classes
+   use (class_functor) the model makes no claim.  Proved: never stuck, and decided (not OUnknown) outside class_functor. *)
+Theorem C27_mode_safe_univ_partial : forall t parts, is_stuck (body_split_call [t; parts]) = false.
 Proof. exact split_call_safe. Qed.
-Print Assumptions C27_mode_safe_univ.
+Print Assumptions C27_mode_safe_univ_partial.
+
+Theorem C27_univ_decided : forall t parts, class_functor t = false -> body_split_call [t; parts] <> OUnknown.
+Proof. exact split_call_decided. Qed.
+Print Assumptions C27_univ_decided.
 
 (* compare/3 and sort/2: only the attribute accesses / tuple index of the body; struct_cmp and sorted() are C15's *)
 Theorem C27_mode_safe_compare_partial : forall c a b, is_stuck (body_compare [c; a; b]) = false.
